@@ -384,6 +384,40 @@ class Differential:
         return base, nvar, varied
 
 
+UNIT_NAMES = {u: n for n, u in INDENT_UNITS + JOIN_UNITS}
+
+
+def style_parts(st: G.Style):
+    """The one-dimension parts a combined style is made of, as [(label, style without that part)]."""
+    out = []
+    for c in sorted(st.legacy):
+        out.append((f"legacy:{c}", dataclasses.replace(st, legacy=st.legacy - {c})))
+    for c, u in st.indent:
+        out.append((f"indent:{c}:{UNIT_NAMES.get(u, 'other')}",
+                    dataclasses.replace(st, indent=tuple(x for x in st.indent if x[0] != c))))
+    for pos in sorted(st.hash_at):
+        out.append((f"hash:{pos}", dataclasses.replace(st, hash_at=st.hash_at - {pos})))
+    if st.trailing:
+        out.append((f"trailing:{st.trailing[0]}@{st.trailing[1]}", dataclasses.replace(st, trailing=None)))
+    if st.join_indent != G.BASE.join_indent:
+        out.append((f"indent:join:{UNIT_NAMES.get(st.join_indent, 'other')}",
+                    dataclasses.replace(st, join_indent=G.BASE.join_indent)))
+    return out
+
+
+def shrink_combo(style, fails):
+    """Drop the parts of a combined style that are not needed for the failure; returns (style, label)."""
+    progress = True
+    while progress:
+        progress = False
+        for _, without in style_parts(style):
+            if len(style_parts(style)) > 1 and fails(without):
+                style, progress = without, True
+                break
+    labels = [l for l, _ in style_parts(style)]
+    return style, (labels[0] if len(labels) == 1 else "combo:" + ",".join(labels))
+
+
 def style_to_json(st: G.Style):
     return {"legacy": sorted(st.legacy), "indent": [list(x) for x in st.indent], "hash_at": sorted(st.hash_at),
             "trailing": list(st.trailing) if st.trailing else None, "join_indent": st.join_indent,
@@ -548,17 +582,32 @@ def run(tier: str, seed: int) -> int:
     # one report per signature, with a shrunk witness; the signature reported is that of the shrunk witness
     # (a story with a colon in a header that fails for another reason shrinks to a witness without the colon)
     failing = {}
+    combo_seen = {}
     for sig0 in sorted(diff.fail):
         story, style, label, outcome = diff.fail[sig0][0]
+        key = None
 
         def still(cand, style=style):
+            if not G.well_formed(cand):
+                return False
             oc = diff.outcome(cand, style)
             return oc is not None and oc != "invalid"
 
         if sig0.startswith("style=baseline"):
             small, oc, sig = story, outcome, sig0
         else:
-            small = G.shrink(story, still, budget=shrink_budget)
+            if label.startswith("combo:"):
+                # keep only the parts of the style the failure needs (before and after reducing the story); a random
+                # combination that comes down to parts already reported is counted there and not reduced again
+                style, label = shrink_combo(style, lambda st: still(story, st))
+                key = signature_of(story, style, label)
+                if key in combo_seen:
+                    failing[combo_seen[key]]["count"] += len(diff.fail[sig0])
+                    continue
+            small = G.shrink(story, lambda c, st=style: still(c, st), budget=shrink_budget)
+            if label.startswith("combo:"):
+                style, label = shrink_combo(style, lambda st: still(small, st))
+                small = G.shrink(small, lambda c, st=style: still(c, st), budget=shrink_budget // 3)
             plain = dataclasses.replace(style, comment="note")
             if style.comment != "note" and still(small, plain):
                 style = plain
@@ -569,6 +618,8 @@ def run(tier: str, seed: int) -> int:
             oc = diff.outcome(small, style) or outcome
             sig = signature_of(small, style, label)
         bt, vt = G.print_story(small, G.BASE).text, G.print_story(small, style).text
+        if key is not None:
+            combo_seen.setdefault(key, sig)
         if sig in failing:
             failing[sig]["count"] += len(diff.fail[sig0])
             continue
@@ -627,6 +678,17 @@ def run(tier: str, seed: int) -> int:
     chk.notes["helper_cases"] = {"strip_inline_comment": len(lines), "detect_and_strip_indentation": len(blocks),
                                  "exhaustive_over": "all strings over {/ \\ = space a} up to length %d" % exh,
                                  "law_evaluations": n_laws}
+    chk.notes["input_distribution"] = (
+        "harness/storygen.py: random stories of 2-4 passages (text with {expr}/inline conditionals/escaped slashes, "
+        "single- and multi-line ~ statements (lists, dicts, parenthesised sums with the operator first or last on the "
+        "line, calls, nested and doubly-open brackets; // -> <> ^ inside the continuation lines) at top level and in "
+        "@if/@for bodies and join blocks, Python blocks assembled from statements and compound statements with blank "
+        "lines first/last/in between and whitespace-only lines, nested @if/@for, jumps, choices, join sections, "
+        "@render/@input/@hook); each story printed in: legacy form per construct, body indentation per construct x "
+        "{2sp,4sp,tab}, join indentation x {2sp,tab,6sp}, # comment lines per position, a trailing // comment per "
+        "(line kind, context), trailing comments on the legacy forms, the pairs legacy:<c>+indent:<c> and "
+        "legacy:py+indent:<enclosing>, # lines at column 0 in an indented @if/@for body, and random combinations of "
+        "the parts that passed")
     chk.notes["baseline_invalid"] = len(diff.invalid)
     chk.notes["variants_not_built_because_known_finding"] = diff.skipped_known
     chk.notes["not_a_theorem"] = ("parse (print style s) independent of style is decided by the differential oracle only; "
